@@ -14,6 +14,7 @@ import (
 	"net/http/httptest"
 	"net/url"
 	"runtime"
+	"sort"
 	"strconv"
 	"strings"
 	"sync"
@@ -65,7 +66,11 @@ var regSchema struct {
 
 func regFiles() (*protoregistry.Files, map[string]protoreflect.ServiceDescriptor) {
 	regSchema.once.Do(func() {
-		files, sds, err := BuildFiles(regServices())
+		bad := ServiceSpec{Pkg: "vg", Name: "Bad", Methods: []MethodSpec{
+			{Name: "ok", Rule: httpRule("GET", "/g/a/m2/below")},
+			{Name: "broken", Rule: httpRule("GET", "/g/bad/{no_such_field}")},
+		}}
+		files, sds, err := BuildFiles(append(regServices(), bad))
 		if err != nil {
 			panic(err)
 		}
@@ -291,27 +296,14 @@ func (w *regWorld) apply(op RegOp, caseID int) OpEv {
 			}
 			ev.OK = ev.Err == ""
 		case "regfail":
-			// a service whose second method carries an invalid rule: the whole registration must fail
-			bad := ServiceSpec{Pkg: "vg", Name: "Bad", Methods: []MethodSpec{
-				{Name: "ok", Rule: httpRule("GET", "/g/bad/ok")},
-				{Name: "broken", Rule: httpRule("GET", "/g/bad/{no_such_field}")},
-			}}
-			files, bsds, err := BuildFiles([]ServiceSpec{bad})
-			_ = files
+			// a service whose second method carries an invalid rule: the whole registration must fail.
+			// Its first method is valid and lands below the leaf of A.m2 when A is registered.
+			rf, _ := regFiles()
+			d, err := rf.FindDescriptorByName("vg.Bad")
 			if err != nil {
 				ev.Err = "schema: " + err.Error()
 				return
 			}
-			// the mux resolves service names in its own registry: register the file there first
-			rf, _ := regFiles()
-			if _, err := rf.FindDescriptorByName("vg.Bad"); err != nil {
-				regFilesMu.Lock()
-				if _, err := rf.FindDescriptorByName("vg.Bad"); err != nil {
-					rf.RegisterFile(bsds[0].ParentFile())
-				}
-				regFilesMu.Unlock()
-			}
-			d, _ := rf.FindDescriptorByName("vg.Bad")
 			un := func(ctx context.Context, full string, req *dynamicpb.Message) (proto.Message, error) {
 				return tagReply("bad"), nil
 			}
@@ -334,8 +326,6 @@ func (w *regWorld) apply(op RegOp, caseID int) OpEv {
 	ev.CurSame = larking.VerifFingerprint(larking.VerifSnapshot(w.mux)) == fpBefore
 	return ev
 }
-
-var regFilesMu sync.Mutex
 
 func runRegHist(h RegHist, backends map[string]*backend, tries int) []interface{} {
 	evs := []interface{}{map[string]interface{}{"ev": "Hist", "case": h.ID}}
@@ -418,6 +408,7 @@ var _ = strings.TrimSpace
 
 type StressRegEv struct {
 	Ev    string `json:"ev"`
+	W     string `json:"w"`
 	Op    string `json:"op"`
 	B     string `json:"b"`
 	OK    bool   `json:"ok"`
@@ -473,11 +464,12 @@ func regStressMain(args []string) error {
 	var reqs []StressReqEv
 	var reqMu sync.Mutex
 	var wg sync.WaitGroup
-	// writer: a seeded walk over the enabled operations of Registry_Hist (always containing drops)
-	wg.Add(1)
-	go func() {
+	// writers: seeded walks over the enabled operations of Registry_Hist (always containing drops).
+	// w1 owns the local service and c1, w2 owns c2: operations of different writers commute.
+	var regMu sync.Mutex
+	writer := func(name string, own []string, withLocal bool, salt int) {
 		defer wg.Done()
-		r := newRng(c.seed, 4242)
+		r := newRng(c.seed, 4242, salt)
 		conns := map[string]bool{}
 		local := false
 		for {
@@ -487,11 +479,11 @@ func regStressMain(args []string) error {
 			default:
 			}
 			var cands []RegOp
-			if !local {
+			if withLocal && !local {
 				cands = append(cands, RegOp{"reglocal", "local"})
 			}
 			cands = append(cands, RegOp{"regfail", ""}, RegOp{"dropunknown", "c3"})
-			for _, cn := range []string{"c1", "c2"} {
+			for _, cn := range own {
 				if conns[cn] {
 					cands = append(cands, RegOp{"dropconn", cn}, RegOp{"dropconn", cn}, RegOp{"reregister", cn})
 				} else {
@@ -500,11 +492,13 @@ func regStressMain(args []string) error {
 			}
 			op := cands[r.Intn(len(cands))]
 			s := next()
-			atomic.StoreInt32(&busy, 1)
+			atomic.AddInt32(&busy, 1)
 			oe := w.apply(op, 0)
-			atomic.StoreInt32(&busy, 0)
+			atomic.AddInt32(&busy, -1)
 			e := next()
-			regs = append(regs, StressRegEv{Ev: "RegOp", Op: op.Op, B: op.B, OK: oe.OK, S: s, E: e, Crash: oe.Crash})
+			regMu.Lock()
+			regs = append(regs, StressRegEv{Ev: "RegOp", W: name, Op: op.Op, B: op.B, OK: oe.OK, S: s, E: e, Crash: oe.Crash})
+			regMu.Unlock()
 			if oe.OK {
 				switch op.Op {
 				case "reglocal":
@@ -517,7 +511,10 @@ func regStressMain(args []string) error {
 			}
 			time.Sleep(time.Duration(r.Intn(300)) * time.Microsecond)
 		}
-	}()
+	}
+	wg.Add(2)
+	go writer("w1", []string{"c1"}, true, 1)
+	go writer("w2", []string{"c2"}, false, 2)
 	for i := 0; i < *readers; i++ {
 		wg.Add(1)
 		go func(i int) {
@@ -553,6 +550,7 @@ func regStressMain(args []string) error {
 	time.Sleep(*dur)
 	close(stop)
 	wg.Wait()
+	sort.Slice(regs, func(i, j int) bool { return regs[i].S < regs[j].S })
 	for _, e := range regs {
 		tw.Emit(e)
 	}
